@@ -75,6 +75,25 @@ func stub(name string, digest []byte) *hasherSpec {
 var kmacKey = []byte("C11-kmac-key-0123456789abcdef")
 var kmacCust = []byte("C11 customizer")
 
+// used wraps a hasher constructor: the hasher is handed over after earlier use (w = Write of a prefix,
+// c = ComputeHash of another message, s = SumHash), without a Reset.
+func used(mk func() hash.Hasher, how string) func() hash.Hasher {
+	return func() hash.Hasher {
+		h := mk()
+		for _, c := range how {
+			switch c {
+			case 'w':
+				_, _ = h.Write([]byte("bytes absorbed before the hasher is handed to ECDSA"))
+			case 'c':
+				_ = h.ComputeHash([]byte("an unrelated message"))
+			case 's':
+				_ = h.SumHash()
+			}
+		}
+		return h
+	}
+}
+
 func kmac(size int) func() hash.Hasher {
 	return func() hash.Hasher {
 		hh, err := hash.NewKMAC_128(kmacKey, kmacCust, size)
@@ -138,6 +157,12 @@ func setup() {
 		{name: "Keccak-256", mk: hash.NewKeccak_256},
 		{name: "KMAC128-32", mk: kmac(32)},
 		{name: "KMAC128-64", mk: kmac(64)},
+		// hashers in NON-INITIAL states (ComputeHash is documented to hash its input whatever was written
+		// before): in the middle of a stream, after an unrelated ComputeHash plus a Write, after Write+SumHash
+		{name: "SHA3-256[mid-stream]", mk: used(hash.NewSHA3_256, "w")},
+		{name: "SHA2-256[after ComputeHash and Write]", mk: used(hash.NewSHA2_256, "cw")},
+		{name: "Keccak-256[after Write and SumHash]", mk: used(hash.NewKeccak_256, "ws")},
+		{name: "KMAC128-32[mid-stream]", mk: used(kmac(32), "w")},
 		stub("stub-0", make([]byte, 32)),
 		stub("stub-nP256", b32(nP)),
 		stub("stub-nP256+1", b32(new(big.Int).Add(nP, one))),
